@@ -18,12 +18,15 @@ func (b *Bus) Send(ctx context.Context, event any) (ok bool) {
 		listeners = append(listeners, l)
 	}
 	b.listenerM.RUnlock()
+	verifAt("send.snap", b, len(listeners))
 
 	needGc := false
 
 	// send the event to each listener that's not closed
 	for _, l := range listeners {
+		verifAt("send.each", b, l)
 		ok, active := l.send(ctx, event)
+		verifAt("send.each.done", b, l, ok, active)
 		if !ok {
 			return false
 		}
@@ -35,6 +38,7 @@ func (b *Bus) Send(ctx context.Context, event any) (ok bool) {
 
 	if needGc {
 		b.collect()
+		verifAt("send.collected", b)
 	}
 
 	return true
@@ -64,13 +68,17 @@ func (b *Bus) Listen(ctx context.Context) <-chan any {
 
 	go func() {
 		<-ctx.Done()
+		verifAt("stop.before", b, l)
 		l.stop()
+		verifAt("stop.closed", b, l)
 	}()
+	verifAt("listen.before", b, l)
 
 	// store the listener
 	b.listenerM.Lock()
 	defer b.listenerM.Unlock()
 	b.listeners = append(b.listeners, l)
+	verifAt("listen.added", b, l, ch)
 
 	return ch
 }
